@@ -168,3 +168,74 @@ Lemma fv_weaken : forall e b1 b2 x, In x (free_vars e b1) -> In x (free_vars e b
 Proof. intros e. exact (proj1 (fv_both e)). Qed.
 Lemma fv_not_bound : forall e b x, In x (free_vars e b) -> ~ In x b.
 Proof. intros e. exact (proj2 (fv_both e)). Qed.
+
+(* every collected name passes P when every identifier / shorthand key of the expression does *)
+Section FvAll.
+  Variable P : string -> Prop.
+  Fixpoint ids_ok (e : expr) {struct e} : Prop :=
+    match e with
+    | EId x => P x
+    | ELam _ body => ids_ok body
+    | EList items =>
+        (fix go (l : list (commented expr)) : Prop :=
+           match l with [] => True | Cm _ a _ :: r => ids_ok a /\ go r end) items
+    | ERec entries =>
+        (fix go (l : list (commented rentry)) : Prop :=
+           match l with
+           | [] => True
+           | Cm _ (REntry k v) _ :: r =>
+               (match k with
+                | KDyn a => ids_ok a /\ ids_ok v
+                | KSpread a => ids_ok a
+                | KStatic _ => ids_ok v
+                | KShort x => P x
+                end) /\ go r
+           end) entries
+    | ECond c t f => ids_ok c /\ ids_ok t /\ ids_ok f
+    | EDo stmts (Cm _ ret _) =>
+        (fix go (l : list (commented expr)) : Prop :=
+           match l with [] => True | Cm _ a _ :: r => ids_ok a /\ go r end) stmts /\ ids_ok ret
+    | EAssign _ v => ids_ok v
+    | EOutput a | EUn _ a | EFact a | ESpread a | EDot a _ => ids_ok a
+    | ECall f args =>
+        ids_ok f /\ (fix go (l : list expr) : Prop :=
+                       match l with [] => True | a :: r => ids_ok a /\ go r end) args
+    | EAccess a i => ids_ok a /\ ids_ok i
+    | EBin _ l r => ids_ok l /\ ids_ok r
+    | _ => True
+    end.
+
+  Lemma fv_ids_ok : forall e bnd x, ids_ok e -> In x (free_vars e bnd) -> P x.
+  Proof.
+    induction e using expr_ind'; intros bnd y Hok Hin; cbn [free_vars ids_ok] in *; try contradiction.
+    - destruct (_ || _) in Hin; [contradiction|]. destruct Hin as [<-|[]]. exact Hok.
+    - match goal with HF : Forall _ items |- _ => induction HF as [|[ld a tr] l Ha _ IHl] end; [contradiction|].
+      cbn [cnode] in Ha. destruct Hok as [H1 H2]. apply in_app_or in Hin. destruct Hin as [Hin|Hin]; eauto.
+    - match goal with HF : Forall _ entries |- _ => induction HF as [|[ld [k v] tr] l Ha _ IHl] end; [contradiction|].
+      cbn [cnode Pentry] in Ha. destruct Ha as [Hk Hv]. destruct Hok as [H1 H2].
+      apply in_app_or in Hin. destruct Hin as [Hin|Hin]; [|eauto].
+      destruct k as [key|ke|z|se]; cbn [Pkey] in Hk.
+      + eauto.
+      + destruct H1 as [H1a H1b]. apply in_app_or in Hin. destruct Hin as [Hin|Hin]; eauto.
+      + destruct (mem z bnd); [contradiction|]. destruct Hin as [<-|[]]. exact H1.
+      + eauto.
+    - eauto.
+    - destruct Hok as (H1 & H2 & H3). apply in_app_or in Hin. destruct Hin as [Hin|Hin]; [eauto|].
+      apply in_app_or in Hin. destruct Hin as [Hin|Hin]; eauto.
+    - match goal with HF : Forall _ stmts, HR : forall _ _, _ |- _ => rename HF into HFs; rename HR into HRet end.
+      destruct ret as [ld rt tr]. cbn [cnode] in HRet. destruct Hok as [Hs Hr].
+      revert bnd Hin. induction HFs as [|[l1 s t1] l Hs1 _ IHl]; intros bnd Hin; [eauto|].
+      cbn [cnode] in Hs1. destruct Hs as [Ha Hb].
+      destruct s; apply in_app_or in Hin; (destruct Hin as [Hin|Hin]; [eauto|eapply IHl; eauto]).
+    - eauto.
+    - destruct Hok as [H1 H2]. apply in_app_or in Hin. destruct Hin as [Hin|Hin]; [eauto|].
+      match goal with HF : Forall _ args |- _ => induction HF as [|a l Ha _ IHl] end; [contradiction|].
+      destruct H2 as [H2a H2b]. apply in_app_or in Hin. destruct Hin as [Hin|Hin]; eauto.
+    - destruct Hok as [H1 H2]. apply in_app_or in Hin. destruct Hin as [Hin|Hin]; eauto.
+    - eauto.
+    - destruct Hok as [H1 H2]. apply in_app_or in Hin. destruct Hin as [Hin|Hin]; eauto.
+    - eauto.
+    - eauto.
+    - eauto.
+  Qed.
+End FvAll.
